@@ -141,6 +141,39 @@ def gen(rng, tier):
         c["_nt"] = kind != "chain"
         c["_sig"] = "%s|%d" % (kind, len(names))
         yield c
+    yield from list_graph_cases(rng.fork("lists"), tier)
+
+
+def list_graph_cases(rng, tier):
+    """reference graphs that run through list elements and nested objects, closed or completed by a later Merge"""
+    copts = [opt("PathSep", "."), opt("VarExp")]
+    for _ in range(60 if tier == "quick" else 600):
+        shape = rng.below(4)
+        a = rng.pick(["a", "bb", "val"])
+        if shape == 0:      # a cycle closed by the second merge, through a list element
+            frm = M([("l", A([S("${v}"), S("k")])), ("v", S(a))])
+            merges = [{"b": M([("v", S("${l.0}"))]), "opts": copts}]
+            reads = [("l.0", "err"), ("v", "err"), ("l.1", "k")]
+        elif shape == 1:    # a target added by the second merge
+            frm = M([("l", A([S("${w}"), S("p-${w}")])), ("o", M([("in", A([S("${w}")]))]))])
+            merges = [{"b": M([("w", S(a))]), "opts": copts}]
+            reads = [("l.0", a), ("l.1", "p-" + a), ("o.in.0", a)]
+        elif shape == 2:    # a chain through list elements of two lists, completed by the merge; no cycle
+            frm = M([("l", A([S("${m.0}")])), ("m", A([S("${leafx}")]))])
+            merges = [{"b": M([("leafx", S(a))]), "opts": copts}]
+            reads = [("l.0", a), ("m.0", a)]
+        else:               # a cycle through a nested object inside a list, closed later
+            frm = M([("l", A([M([("k", S("${t}"))])])), ("t", S(a))])
+            merges = [{"b": M([("t", S("x${l.0.k}"))]), "opts": copts}]
+            reads = [("l.0.k", "err"), ("t", "err")]
+        if rng.chance(0.3):
+            merges.append({"b": M([("unrelated", U(1))]), "opts": copts})
+        rd = [{"r": "get", "type": "String", "name": nm, "idx": -1} for nm, _ in reads]
+        ex = [({"anyerr": True} if want == "err" else {"ok": {"s": want}}) for _, want in reads]
+        extra = [{"r": "count", "name": "l"}, {"r": "keys"}, {"r": "has", "name": reads[0][0], "idx": -1}, {"r": "typed", "name": reads[0][0], "ty": "string"}]
+        yield {"k": "eval", "from": frm, "opts": copts, "merges": merges, "ropts": copts, "reads": rd + extra,
+               "expect": ex + [None, None, None, ({"anyerr": True} if reads[0][1] == "err" else {"ok": {"s": reads[0][1]}})], "repeat": 2,
+               "_tag": "graph/lists-after-merge", "_nt": True, "_sig": "listgraph|%d|%d" % (shape, len(merges))}
 
 
 def normalize_result(case, res):
